@@ -29,6 +29,27 @@ theorem enter_calls_preorder (c : Cfg) (kd : Kind) (its : Items) :
 /-- a scalar root is rejected (`TypeError: expected remappable root`) -/
 theorem scalar_root_rejected (c : Cfg) (a : Atom) : remapIter c (.leaf a) = none := rfl
 
+/-- scalar leaves — `None`, ints, floats, bools and the two Sequence types `default_enter` names as
+    leaves, `str` and `bytes` — are never traversed: a leaf item is entered once (one `enter` call,
+    nothing below it is reported to `research`), handed to `visit` once, as a whole, under its own
+    key, and what `visit` returns for it is what the parent is rebuilt from. -/
+theorem scalar_leaf_visited_whole (c : Cfg) (kd : Kind) (k : Key) (a : Atom) (rest : Items) :
+    remapIter c (.node kd (.cons k (.leaf a) rest)) =
+      some (c.ex [] .none (.node kd (.cons k (.leaf a) rest))
+        (applyVisit c.vf [] (effKey kd 0 k) (.leaf a) ++ rebuildItems c [] kd 1 rest)) ∧
+    nestedLog (.node kd (.cons k (.leaf a) rest)) =
+      ([], effKey kd 0 k, .leaf a) :: preLogItems [] kd 1 rest := by
+  simp [remapIter, remapFinal_eq, remapRec, rebuildItems, rebuildChild, nestedLog, preLogItems, preLog]
+
+/-- `[b'ab', 1]` under a visit that drops every int: the bytes object stays whole (its byte values
+    97, 98 are not items), the int 1 goes -/
+example : remapIter ⟨progVisit [⟨false, .isInt, .drop⟩], defaultExit⟩
+      (.node .list (.cons (.int 0) (.leaf (.bytes [97, 98])) (.cons (.int 1) (.leaf (.int 1)) .nil))) =
+    some (.node .list (.cons (.int 0) (.leaf (.bytes [97, 98])) .nil)) := by
+  rw [(scalar_leaf_visited_whole _ _ _ _ _).1]
+  simp [applyVisit, progVisit, evalProg, evalCond, evalAct, VAct.toVisit, Val.view, rebuildItems,
+    rebuildChild, effKey, defaultExit, buildItems, renumber, ofList]
+
 /-- with the default callbacks the result is an equal copy: same container types, same keys, same
     order (tree level: structural equality; `Canon` = dict keys distinct, sequence items numbered
     0,1,2,…, set members pairwise not `==` — facts about every Python value). -/
